@@ -57,8 +57,68 @@ def rr_task(args):
     return out
 
 
+def rad_site_cases(ctx):
+    """every regenerated radius-write expression py_rad_* evaluated by Python on the (normalised) source expression and by Coq on
+    Flocq binary64, on random positive inputs with exact ties: returns (coq terms, expected bit patterns)"""
+    import ast, math
+    import numpy as np
+    from translator import gen, fragments
+    trees = {'solver': gen.load('solver'), 'controller': gen.load('controller')}
+    sites = sorted(fragments.radius_sites(trees), key=lambda t: (t[0], t[1], t[3]))
+    counts, terms, exp = {}, [], []
+    rng = np.random.default_rng(ctx.seed + 18)
+    for fname, qual, nm, line, expr in sites:
+        if (fname, qual) == ('controller', 'Controller.reduce_rho'):
+            continue
+        k = (fname, qual, nm)
+        counts[k] = counts.get(k, -1) + 1
+        e2 = fragments._Norm().visit(ast.parse(ast.unparse(expr), mode='eval').body)
+        names = sorted({x.id for x in ast.walk(e2) if isinstance(x, ast.Name) and x.id not in ('np', 'max', 'min')})
+        cname = 'py_rad_%s_%s_%s_%d' % (fname, qual.replace('.', '_').replace('__', ''), nm, counts[k])
+        code = compile(ast.fix_missing_locations(ast.Expression(e2)), '<radius site>', 'eval')
+        for _ in range(ctx.scale(12, 120)):
+            pool = [float(10.0 ** rng.uniform(-6, 3)) for _ in range(3)]
+            vals = {}
+            for x in names:
+                vals[x] = pool[int(rng.integers(0, 3))] if rng.random() < 0.4 else float(10.0 ** rng.uniform(-8, 4))
+            try:
+                with np.errstate(all='ignore'):
+                    v = float(eval(code, {'np': np, 'max': max, 'min': min, '__builtins__': {}}, dict(vals)))
+            except (ZeroDivisionError, OverflowError, ValueError):
+                continue
+            terms.append('to_bits (@%s ArithF64 %s)' % (cname, ' '.join(IO_flit(vals[x]) for x in names)) if names else 'to_bits (@%s ArithF64)' % cname)
+            exp.append(C.bits(v))
+    return terms, exp, len(counts)
+
+
+def IO_flit(x):
+    from .. import modelio as IO
+    return IO.flit(x)
+
+
 def correspondence(ctx):
     from .. import modelio as IO
+    terms, exp, nsites = rad_site_cases(ctx)
+    body = ('From Coq Require Import ZArith List Bool String.\nRequire Import DV.Base.Prelude DV.Base.F64 DV.Spec.Schema DV.Lib.Corr.\n'
+            'From G Require Import Gen_util Gen_solver.\nImport ListNotations.\nOpen Scope Z_scope.\n')
+    body += 'Definition exp_ : list Z := [' + '; '.join(C.zlit(z) for z in exp) + '].\n'
+    body += 'Definition got_ : list Z := [' + ';\n'.join(terms) + '].\n'
+    body += 'Eval vm_compute in map (fun p => if Z.eqb (fst p) (snd p) then 1 else 0) (combine got_ exp_).\n'
+    ok, out = C.coq_eval(ctx, 'cases_radsites', body, '')
+    if not ok:
+        ctx.oblige('correspondence:radius_sites', False, C.first_error(out))
+    else:
+        ls = C.parse_eval_lists(out)
+        flags = ls[0] if ls else []
+        bad = [i for i, f in enumerate(flags) if f != 1]
+        ctx.cov['radius_site_evaluations_compared'] = len(flags)
+        ctx.cov['radius_sites_compared'] = nsites
+        if len(flags) != len(terms) or not terms:
+            ctx.oblige('correspondence:radius_sites', False, 'evaluated %d of %d cases' % (len(flags), len(terms)))
+        elif bad:
+            ctx.oblige('correspondence:radius_sites[%d]' % bad[0], False, 'regenerated radius expression and Python differ on %d of %d evaluations, first: %s expected %d' % (len(bad), len(terms), terms[bad[0]][:200], exp[bad[0]]))
+        else:
+            ctx.oblige('correspondence:radius_sites(%d evaluations of %d write-site groups, bit-exact on binary64)' % (len(terms), nsites), True)
     res = C.parallel(rr_task, [(ctx.seed * 41 + i + 7, ctx.scale(6, 80)) for i in range(16)], timeout_each=600)
     cases = []
     for t, st, r in res:
